@@ -1,6 +1,6 @@
 (** C10 — changing representation loses nothing: the obligations, written out in full. *)
 From Coq Require Import List NArith ZArith String.
-From SK Require Import lib.LGraph lib.StrJoin model.C10_Model model.C10_Text model.C10_Rxn model.C10_Dfs proof.C10_Dfs proof.C10_Rxn proof.C10_ImpH proof.C10_HRoundIts proof.C10_GmlEHFull proof.C10_ReindexEHFull proof.C10_Renumber proof.C10_Text proof.C10_Proof proof.C10_Hydrogen proof.C10_Routes proof.C10_GmlWrite proof.C10_HRound proof.C10_Routes2 proof.C10_Reindex proof.C10_MolGraph proof.C10_Smart proof.C10_GmlEH proof.C10_Select proof.C10_MolOk proof.C10_Full proof.C10_Attrs proof.C10_Light proof.C10_ReindexEH.
+From SK Require Import lib.LGraph lib.StrJoin model.C10_Model model.C10_Text model.C10_Rxn model.C10_Dfs proof.C10_Dfs proof.C10_Rxn proof.C10_ImpH proof.C10_HRoundIts proof.C10_GmlEHFull proof.C10_ReindexEHFull proof.C10_Renumber proof.C10_G2MSpec proof.C10_MolMapped proof.C10_Text proof.C10_Proof proof.C10_Hydrogen proof.C10_Routes proof.C10_GmlWrite proof.C10_HRound proof.C10_Routes2 proof.C10_Reindex proof.C10_MolGraph proof.C10_Smart proof.C10_GmlEH proof.C10_Select proof.C10_MolOk proof.C10_Full proof.C10_Attrs proof.C10_Light proof.C10_ReindexEH.
 Import ListNotations.
 Local Open Scope Z_scope.
 
@@ -693,3 +693,32 @@ Theorem C10_three_routes_from_records :
     reads_c (gml_to_its (its_to_gml (rsmi_to_its r p eo true false) true false explicit_h)).
 Proof. exact three_routes_from_records. Qed.
 Print Assumptions C10_three_routes_from_records.
+
+(** GraphToMol.graph_to_mol DESCRIBED BY THE TWO LOOKUPS, for every molecule-shaped graph — any networkx graph (any node ids, any
+    insertion and adjacency order) whose bonds join two different atoms and carry a scalar order: the atoms handed to RDKit are the
+    node list in order (symbol, charge, map, explicit-H count from the dictionary), and between the atoms at positions i and j
+    (positions = index in the node order) the bond is get_bond_type_from_order of the bond dictionary of the two nodes (a missing
+    order counts as 1); no other bond.  The order in which edges_iter walks the bonds never matters. *)
+Theorem C10_graph_to_mol_spec :
+  forall G : gr, gwfb G = true ->
+    (forall u v x, adj G u v = Some x -> u <> v /\ match e_ord x with Some (OP _ _) => False | _ => True end) ->
+    exists bonds', graph_to_mol G = Some (map (fun p : N * natt => g2m_atom (snd p)) (gnodes G), bonds') /\
+      (forall u v i j, index_of u (node_ids G) 0 = Some i -> index_of v (node_ids G) 0 = Some j ->
+         bond_find i j bonds' =
+         option_map (fun x => bond_type (match e_ord x with Some (OS z) => z | _ => 2 end)) (adj G u v)) /\
+      (forall i j t, bond_find i j bonds' = Some t ->
+         exists u v, index_of u (node_ids G) 0 = Some i /\ index_of v (node_ids G) 0 = Some j).
+Proof. intros G Hw Hm. exact (graph_to_mol_spec G (gwfb_gwf G Hw) Hm). Qed.
+Print Assumptions C10_graph_to_mol_spec.
+
+(** Molecule -> graph -> molecule ON THE REACTION PATH (rsmi_to_graph: drop_non_aam = use_index_as_atom_map = True, node id = atom-map
+    number).  For every fully mapped molecule record in the contract [rdmol_ok] the RWMol handed back to RDKit has exactly the atoms
+    that were read, in order (symbol, charge, map, total H count as explicit no-implicit count), and between every pair of atom
+    indices exactly the bond that was read — the statement of C10_mol_graph_roundtrip, for the flags the reaction routes use
+    (closes a round-5 "left undone" item). *)
+Theorem C10_mol_graph_roundtrip_mapped :
+  forall m : rmol, rdmol_ok m = true -> forallb (fun a => negb (r_map a =? 0)) (fst m) = true ->
+    exists bonds', graph_to_mol (mol_to_graph m true true) = Some (map atom_back (fst m), bonds') /\
+                   forall i j, bond_find i j bonds' = option_map bond_type (bond_find i j (snd m)).
+Proof. exact mol_graph_roundtrip_mapped. Qed.
+Print Assumptions C10_mol_graph_roundtrip_mapped.
